@@ -111,7 +111,7 @@ def realise(d):
 @st.composite
 def signal(draw, min_n=1, max_n=64, dtype="any",
            kinds=("noise", "tones", "ar", "trend", "const", "int", "dyn", "explicit"),
-           explicit_max=12, n=None):
+           explicit_max=12, n=None, noise_levels=(0.0, 1e-3, 0.1, 1.0)):
     """Descriptor of a data vector.  dtype: 'real' | 'complex' | 'any'."""
     cplx = draw(st.booleans()) if dtype == "any" else (dtype == "complex")
     kind = draw(st.sampled_from(list(kinds)))
@@ -138,7 +138,7 @@ def signal(draw, min_n=1, max_n=64, dtype="any",
         d["tones"] = [[draw(st.floats(-0.5 if cplx else 0.02, 0.5 if cplx else 0.48)),
                        draw(st.floats(0.2, 3.0)),
                        draw(st.floats(0, 6.283))] for _ in range(k)]
-        d["noise"] = draw(st.sampled_from([0.0, 1e-3, 0.1, 1.0]))
+        d["noise"] = draw(st.sampled_from(list(noise_levels)))
     elif kind in ("ar", "arma"):
         d["pole"] = [draw(st.floats(0.3, 0.95)), draw(st.floats(0.2, 2.9))]
         if kind == "arma":
